@@ -42,11 +42,16 @@ def _geo_only(g, keep_cos):
 def body_pointwise(case):
     cfg, u_rows = case["cfg"], case["u"]
     geo = gc.make_geo(cfg)
+    # a near-twin configuration (relative distance 1e-9 .. 1e-5) is constructed first in the same process: a
+    # normalisation memoised under a rounded key would be served to the configuration under test
+    d = case.get("twin", 1e-7)
+    with cut("RegionGeom(near-twin configuration)"):
+        _throw(dict(cfg, alt=cfg["alt"] * (1.0 + d), limb_frac=cfg["limb_frac"] * (1.0 - d) if cfg["limb_frac"] > 0 else cfg["limb_frac"]), u_rows[:1])
     with cut("RegionGeom.throw"):
         g, u = _throw(cfg, u_rows)
     K = len(u_rows)
     mask = np.asarray(g.event_mask, dtype=bool)
-    labels = set()
+    labels = {"near_twin_first"}
     if gc.on_face(u_rows):
         labels.add("face")
     if mask.any() and (~mask).any():
@@ -269,6 +274,8 @@ def body_history(case):
     conf = gc.make_config(cfg)
     with cut("RegionGeom()"):
         shared = RegionGeom(conf)
+        # ... and a later-constructed object of another configuration exists before the first throw
+        RegionGeom(gc.make_config(dict(cfg, alt=cfg["alt"] * 2.3 + 1.0, limb_frac=0.61)))
     labels = set()
     sizes = [len(b) for b in hist]
     if len(set(sizes)) < len(sizes):
@@ -277,6 +284,14 @@ def body_history(case):
         u = np.array(rows, dtype=np.float64).T.copy()
         with cut(f"throw #{step} on a reused object"):
             shared.throw(u.copy())
+            if step % 2 == 1 or len(hist) <= 2:
+                # a second object of ANOTHER configuration is constructed and thrown with other numbers between this
+                # object's throw and its queries (state shared between instances: class attributes, module caches)
+                cfg2 = dict(cfg, alt=cfg["alt"] * 1.7 + 3.0, limb_frac=0.37, thmax=min(cfg["thmax"] * 1.3, 1.5))
+                other = RegionGeom(gc.make_config(cfg2))
+                other.throw((u[:, ::-1] * 0.9 + 0.05).copy())
+                gc.snapshot_throw(other, s_list, WITH_INTEGRAL)
+                labels.add("second_object_interleaved")
             a = gc.snapshot_throw(shared, s_list, WITH_INTEGRAL)
         with cut("throw on a fresh object"):
             fresh = RegionGeom(conf)
@@ -300,7 +315,7 @@ def _nt(labels):
 SUBCHECKS = [
     SubCheck(
         "pointwise",
-        st.fixed_dictionaries({"cfg": gc.geom_config(), "u": gc.points(1, 32)}),
+        st.fixed_dictionaries({"cfg": gc.geom_config(), "u": gc.points(1, 32), "twin": st.sampled_from([1e-9, 1e-8, 1e-7, 1e-6, 1e-5, 3e-7])}),
         body_pointwise,
         _nt,
         {"quick": 1500, "thorough": 40000},
